@@ -66,7 +66,10 @@ def cases(draw):
             # the judged one, and whether the payload is an administrative record in object form (a status report as
             # the agent itself builds them)
             'policy_ivs': draw(st.sampled_from([None, None, 0, 1])), 'earlier': draw(st.sampled_from([0, 0, 1, 2])),
-            'admin_obj': draw(st.sampled_from([False, False, True]))}
+            'admin_obj': draw(st.sampled_from([False, False, True])),
+            # the extension-block target is a hop count block built from an object whose type code comes from the layer
+            # binding only (how the agent builds its own blocks), instead of an unknown-type block given as octets
+            'ext_object': draw(st.sampled_from([False, False, True]))}
 
 
 def strategy(tier):
@@ -89,6 +92,9 @@ def enumerate_cases(tier):
     for mode, targets, ivs, earlier, admin in itertools.product(MODES, (['payload'], ['payload', 'ext']), (None, 0, 1), (0, 1, 2), (False, True)):
         yield {'direction': 'A', 'mode': mode, 'targets': targets, 'scope': 0, 'accept': True, 'plen': 9, 'seed': 2, 'pcrc': 1, 'bcrc': 1,
                'alterations': short, 'policy_ivs': ivs, 'earlier': earlier, 'admin_obj': admin}
+    for mode, targets, accept in itertools.product(MODES, (['ext'], ['payload', 'ext']), (False, True)):
+        yield {'direction': 'A', 'mode': mode, 'targets': targets, 'scope': 0, 'accept': accept, 'plen': 9, 'seed': 2, 'pcrc': 1, 'bcrc': 1,
+               'alterations': short, 'policy_ivs': None, 'earlier': 0, 'admin_obj': False, 'ext_object': True}
     # every ciphertext bit (payload ciphertext = plaintext length + 16 octet tag)
     for direction, mode in (('A', 'enc0-256'), ('A', 'kw'), ('B', 'enc0-128')):
         plen = 4 if tier == 'quick' else 12
@@ -109,6 +115,8 @@ def base_bundle(case):
     blocks = [dict(type=192, num=2, flags=0, crc_type=case['bcrc'], data=strat9174.content(6, case['seed'] + 1).hex()),
               dict(type=193, num=3, flags=0, crc_type=case['bcrc'], data=strat9174.content(4, case['seed'] + 2).hex()),
               dict(type=1, num=1, flags=0, crc_type=case['bcrc'], data=strat9174.content(case['plen'], case['seed']).hex())]
+    if case.get('ext_object') and case['direction'] == 'A':
+        blocks[0] = dict(type=10, num=2, flags=0, crc_type=case['bcrc'], data=r.btsd_hop_count(30, 2))
     pri = dict(version=7, flags=r.FLAG_RPT_DELETION, crc_type=case['pcrc'], dest=['dtn', '//dst/svc'], src=['dtn', '//srcnode/app'],
                rpt=['dtn', '//reports/'], ts=[789004000000, 5], lifetime=3600000, frag=None)
     if case.get('admin_obj') and case['direction'] == 'A':
@@ -151,7 +159,7 @@ def encrypt(case, out):
         bw.reset()
         src = bw.Node('dtn://srcnode/', tx_routes=[('.*', 'dtn://next/', None)], name='source')
         provision(src, case['mode'])
-        types = sorted({1 if t == 'payload' else 192 for t in case['targets']})
+        types = sorted({1 if t == 'payload' else (10 if case.get('ext_object') else 192) for t in case['targets']})
         n_ivs = case.get('policy_ivs')
         pol_ivs = ivs if n_ivs is None else [bytes([0x60 + i]) * 12 for i in range(int(n_ivs))]
         if case['mode'] == 'kw':
@@ -159,14 +167,15 @@ def encrypt(case, out):
         else:
             bu.add_policy(src, 'bcb', kid, types, ivs=pol_ivs)
         admin_obj = bool(case.get('admin_obj'))
+        objform = 'bound' if case.get('ext_object') else admin_obj
         earlier = int(case.get('earlier') or 0)
         for idx in range(earlier):
             # other bundles that went through the same security association first
             other = base_bundle(dict(case, seed=case['seed'] + 10 + idx))
             other['primary']['ts'] = [789004000000, 100 + idx]
-            src.send(BundleContainer(bpconv.to_repo(other, objform=admin_obj)))
+            src.send(BundleContainer(bpconv.to_repo(other, objform=objform)))
         n_before = len(src.sent())
-        err = src.send(BundleContainer(bpconv.to_repo(bundle, objform=admin_obj)))
+        err = src.send(BundleContainer(bpconv.to_repo(bundle, objform=objform)))
         sent = src.sent()[n_before:]
         desc = 'policy IV list %s, %d earlier bundles, admin payload object %s' % ('one per target' if n_ivs is None else n_ivs, earlier, admin_obj)
         for esc in src.escapes():
